@@ -226,3 +226,47 @@ func Template(kind int, seed int64, cfg *Config) *Program {
 	}
 	return p
 }
+
+// RefactorSkeleton builds a program whose callables have prefix-related
+// parameter names (res / res_alt, v / v2) that are referenced through struct
+// projections in bindings, disabled modifiers, returns and retains: the shapes
+// a rename / remove edit must keep apart.
+func RefactorSkeleton(seed int64, cfg *Config) *Program {
+	g := &gen{r: rand.New(rand.NewSource(seed)), cfg: cfg, p: &Program{Seed: seed}, info: map[string]*pipeInfo{}}
+	p := g.p
+	src := func(st *Stage) *Stage {
+		st.SrcLang, st.Src = cfg.SrcFor(st.Name)
+		return st
+	}
+	base := []string{"res", "bam", "out", "val"}[g.r.Intn(4)]
+	ext := base + []string{"_alt", "2", "_index", "x"}[g.r.Intn(4)]
+	inb := []string{"v", "arg", "in_a"}[g.r.Intn(3)]
+	ine := inb + []string{"2", "_b", "s"}[g.r.Intn(3)]
+	p.Structs = append(p.Structs, &Struct{Name: "SX", Fields: []Param{{Name: "a", Type: TInt}, {Name: "b", Type: TBool}, {Name: "f", Type: TFile}}})
+	tsx := &Type{Kind: KStruct, Name: "SX"}
+	outs := []Param{{Name: base, Type: tsx}, {Name: ext, Type: tsx}, {Name: "n", Type: TInt}}
+	if g.pct(50) {
+		outs[0], outs[1] = outs[1], outs[0]
+	}
+	mkr := src(&Stage{Name: "MKR", Ins: []Param{{Name: inb, Type: TInt}, {Name: ine, Type: TInt}}, Outs: outs})
+	use := src(&Stage{Name: "USE", Ins: []Param{{Name: "x", Type: TInt}}, Outs: []Param{{Name: "y", Type: TInt}}})
+	p.Stages = []*Stage{mkr, use}
+	inner := &Pipeline{Name: "INNER", Ins: []Param{{Name: inb, Type: TInt}, {Name: ine, Type: TInt}},
+		Outs: []Param{{Name: base, Type: tsx}, {Name: ext, Type: tsx}, {Name: "y", Type: TInt}},
+		Calls: []*Call{
+			{Callee: "MKR", Binds: []Binding{{Id: inb, Exp: self(inb)}, {Id: ine, Exp: self(ine)}}},
+			{Callee: "USE", Alias: "U1", Binds: []Binding{{Id: "x", Exp: ref("MKR", ext, "a")}}},
+			{Callee: "USE", Alias: "U2", Disabled: ref("MKR", ext, "b"), Binds: []Binding{{Id: "x", Exp: ref("MKR", base, "a")}}},
+		},
+		Ret:    []Binding{{Id: base, Exp: ref("MKR", base)}, {Id: ext, Exp: ref("MKR", ext)}, {Id: "y", Exp: ref("U1", "y")}},
+		Retain: []*Exp{ref("MKR", ext, "f")}}
+	top := &Pipeline{Name: "TOP", Outs: []Param{{Name: "y", Type: TInt}, {Name: "a", Type: TInt}, {Name: "f", Type: TFile}},
+		Calls: []*Call{
+			{Callee: "INNER", Binds: []Binding{{Id: inb, Exp: lit(int64(g.r.Intn(100)))}, {Id: ine, Exp: lit(int64(g.r.Intn(100)))}}},
+			{Callee: "USE", Alias: "U3", Disabled: ref("INNER", ext, "b"), Binds: []Binding{{Id: "x", Exp: ref("INNER", ext, "a")}}},
+		},
+		Ret: []Binding{{Id: "y", Exp: ref("U3", "y")}, {Id: "a", Exp: ref("INNER", base, "a")}, {Id: "f", Exp: ref("INNER", ext, "f")}}}
+	p.Pipelines = []*Pipeline{inner, top}
+	p.Top = &Call{Callee: "TOP"}
+	return p
+}
